@@ -455,10 +455,15 @@ Proof. unfold bytes_quote, DQ, SQ. destruct (existsb (N.eqb 39) raw && negb (exi
 
 Lemma bytes_escape_no_nl raw : has_nl (bytes_escape raw) = false.
 Proof.
-  unfold bytes_escape, has_nl, NL. pose proof (bytes_quote_cases raw) as Hq. revert Hq.
-  generalize (bytes_quote raw) as q. intros q Hq.
-  induction raw as [|c s IH]; [reflexivity|]. cbn [flat_map]. rewrite existsb_app. rewrite IH.
-  rewrite orb_false_r. apply bytes_repr1_no_nl. exact Hq.
+  assert (Hbody : forall q, (q = 34 \/ q = 39) -> existsb (N.eqb 10) (flat_map (bytes_repr1 q) raw) = false).
+  { intros q Hq. induction raw as [|c s IH]; [reflexivity|]. cbn [flat_map]. rewrite existsb_app. rewrite IH.
+    rewrite orb_false_r. apply bytes_repr1_no_nl. exact Hq. }
+  unfold bytes_escape, has_nl, NL. specialize (Hbody (bytes_quote raw) (bytes_quote_cases raw)).
+  destruct (N.eqb (bytes_quote raw) DQ); [|exact Hbody].
+  induction (flat_map (bytes_repr1 (bytes_quote raw)) raw) as [|c s IH]; [reflexivity|].
+  cbn [existsb flat_map] in *. apply orb_false_iff in Hbody. destruct Hbody as [Hc Hs].
+  rewrite existsb_app. rewrite (IH Hs). rewrite orb_false_r.
+  unfold requote1, SQ, BSL. destruct (N.eqb c 39); [reflexivity|]. cbn [existsb]. rewrite Hc. reflexivity.
 Qed.
 
 Lemma firstn_app_exact {X} (l l' : list X) : firstn (length l) (l ++ l') = l.
